@@ -44,4 +44,20 @@ PROPS = {
         "trusted": ["modelled, not verified: core::ops::Range<u8> (next, next_back, nth, nth_back, size_hint) as Model/Text.lean Range"] + COMMON_TRUST,
         "assumptions": [],
     },
+    "C08": {
+        "streams": [{"name": "c08"}],
+        "translators": ["rook", "bishop", "tables"],
+        "rule": "exhaustive accessor sweep: the real rook_moves/bishop_moves on every subset of every square's magic mask (102400 + 5248; thorough: every subset of the full rays, 2^14 per rook square) plus seeded random full occupancies (off-ray independence), compared with the model's table read and with ray casting by stepping; distinct = distinct (square, occupancy) requests",
+        "trusted": ["tools/translate.py: the 2x64 Magic{factor,mask,offset,shift} records and the 2x262144 SOLUTIONS entries are regenerated into Gen/RookMagic.lean, Gen/BishopMagic.lean (entries beyond the last non-zero one are checked to be zero by the translator and read as zero)",
+                    "modelled, not verified: the index expression of chess-lookup/src/lib.rs (wrapping_mul, >>, wrapping_add) as BitVec 64 arithmetic in Model/Lookup.lean; the cfg!(debug_assertions) branch choice"] + COMMON_TRUST,
+        "assumptions": [],
+    },
+    "C09": {
+        "streams": [{"name": "c09"}],
+        "translators": ["tables", "consts"],
+        "rule": "exhaustive: every public accessor and constant of chess_lookup over its whole domain (64 squares, 4096 pairs, 2 colours, 8 files/ranks, 17 constants), every deterministic public function of chess_lookup_generator against the checked-in tables, the pawn helpers on all 2^k patterns of their relevant squares plus off-pattern noise; distinct = distinct request lines",
+        "trusted": ["tools/translate.py: the eight geometry tables and the hand-written constants (as expressions over the model's constructors) are regenerated into Gen/Tables.lean, Gen/Consts.lean",
+                    "modelled, not verified: the accessor bodies of chess-lookup/src/lib.rs (pawn_quiets, pawn_attacks, distance, ADJACENT_FILES/RANKS loops) in Model/Lookup.lean; the magic generator's random search and the book builder are out of scope"] + COMMON_TRUST,
+        "assumptions": [],
+    },
 }
